@@ -1,5 +1,6 @@
 import ESV.Comp.FrontW13
 import ESV.Comp.CodegenF0e
+import ESV.Comp.CgFinal
 import ESV.Props.C01Backend
 /-
 C01, front end — what is proved about the compiler's front end (the code generator: `ESV.Comp.frontend`, model of
@@ -126,5 +127,63 @@ def exF0 : Program :=
 
 example : F0Prog exF0 := by decide
 example : compiles exF0 = true := by decide
+
+/-! ### fragment F1: F0 + if / elseif / else -/
+
+/-- F1 programs: no macros, routines numbered 0, 1, 2, … in source order, bodies built from the statements of F0 and
+if-blocks with any number of headers (`||`), `not`, elseifs, an optional else, empty blocks (`cgStmts`) -/
+def F1Prog (p : Program) : Prop := CgProg p
+
+instance (p : Program) : Decidable (F1Prog p) := by unfold F1Prog; infer_instance
+
+/-- **The code generator is correct on F1**: source semantics of every routine ≈ labelled code of the front end. -/
+theorem codegen_correct_F1 (p : Program) (t : Tables) (hp : F1Prog p) (hf : frontend p = .ok t) (j : Nat) (r : Routine)
+    (hj : p.routines[j]? = some r) :
+    ∃ e, (toSrc p).graph.entries[j]? = some (some e) ∧
+      Equivalent (toSrc p).graph.lts (labLTS t.ops) e (labEntry t.ops j) :=
+  codegen_correct_cg p t hp hf j r hj
+
+/-- **The compiler is correct on F1**, end to end: source semantics of every routine ≈ SSB machine on the compiled ops. -/
+theorem compile_correct_F1 (p : Program) (res : Result) (hp : F1Prog p) (h : compile p = .ok res) (j : Nat) (r : Routine)
+    (hj : p.routines[j]? = some r) :
+    ∃ e, (toSrc p).graph.entries[j]? = some (some e) ∧
+      Equivalent (toSrc p).graph.lts (Machine.lts ⟨flatten (conv res.ops)⟩) e (Machine.entry ⟨flatten (conv res.ops)⟩ j) := by
+  obtain ⟨t, hf, _, _, hb⟩ := compile_backend_equiv p res (frontGuard_of_cg p hp) h
+  obtain ⟨e, he, h1⟩ := codegen_correct_F1 p t hp hf j r hj
+  have hlt : j < t.ops.length := by
+    -- the routine has an op list in the front end's tables
+    rcases Nat.lt_or_ge j t.ops.length with h' | h'
+    · exact h'
+    · exfalso
+      -- outside the tables the labelled code is stuck, the source routine is not
+      obtain ⟨hm, hseq, hall⟩ := hp
+      unfold frontend at hf
+      rw [hm] at hf
+      simp only [sortMacros, compileMacros] at hf
+      have hpure : (pure ([] : Macros) : M Macros) St.init = .ok ([], St.init) := rfl
+      rw [hpure] at hf
+      simp only at hf
+      cases hr : wrapAssert (compileRoutines [] p.routines 0 ⟨[], [], []⟩ St.init) with
+      | error e' => rw [hr] at hf; simp at hf
+      | ok r2 =>
+        obtain ⟨t2, s2⟩ := r2
+        rw [hr] at hf
+        simp only [Except.ok.injEq] at hf
+        subst hf
+        obtain ⟨its, _, _, _, _, hits, _⟩ := (compileRoutines_cg ⟨[], [], List.nodup_nil⟩ 1 p.routines 0 _ _ _ _ hseq rfl rfl hall rfl rfl
+          (wrapAssert_ok hr)).2 j r hj
+        simp only [Nat.zero_add] at hits
+        rw [List.getElem?_eq_none h'] at hits
+        cases hits
+  exact ⟨e, he, h1.trans (hb j hlt)⟩
+
+/-- non-vacuity: `def 0 { a(); if (Branch 1 || Branch 2) { b(); } elseif not (Branch 3) { return; } else { } c(); }` -/
+def exF1 : Program :=
+  ⟨[], [], [⟨some 0, "r0", none,
+    .cons (.op "a" []) (.cons (.ite false [⟨false, "Branch", [.int 1]⟩, ⟨false, "Branch", [.int 2]⟩] (.cons (.op "b" []) .nil)
+      (.cons true [⟨false, "Branch", [.int 3]⟩] (.cons .ret .nil) .nil) true .nil) (.cons (.op "c" []) .nil))⟩]⟩
+
+example : F1Prog exF1 := by decide
+example : compiles exF1 = true := by decide
 
 end ESV.C01Frontend
